@@ -158,16 +158,15 @@ func newSess(ctx *core.Ctx, bin string, wid int) *sess {
 		ss.dead = true
 		return ss
 	}
-	c.Timeout = 20 * time.Second
+	c.Timeout = 60 * time.Second
 	ss.ctl = c
 	if ss.sub, err = notif.Subscribe(s.Addr(), []string{"r0", "r1"}, nil); err != nil {
 		ctx.Inconclusive("subscribe: " + err.Error())
 		ss.dead = true
 		return ss
 	}
-	if ss.ep, err = notif.NewEndpoint(); err != nil {
-		ctx.Inconclusive("endpoint: " + err.Error())
-		ss.dead = true
+	if ss.ep != nil {
+		ss.ep.DropRedeliveries(true)
 	}
 	return ss
 }
@@ -802,6 +801,9 @@ func Run(ctx *core.Ctx) {
 			defer ss.close()
 			for n := w; n < nCfg && !ss.dead && ctx.Violations() < 25; n += workers {
 				ss.config(n, moves, ctx.Thorough() || n%3 == 0)
+			}
+			if ss.ep != nil {
+				ctx.Count("webhook_redeliveries_suppressed", ss.ep.Redelivered())
 			}
 		}(w)
 	}
